@@ -55,7 +55,7 @@ def gen_cases(tier, seed):
             kw['mode'] = 'kanji'
         cases.append(common.mk(bytes(data), tag='sjis-string', **kw))
     # class strings x requested mode x version class
-    classes = ['digits', 'alnum', 'ascii', 'latin1', 'kana', 'sjis_bytes', 'hanzi', 'bytes', 'int', 'utf8', 'upper', 'latin1_jis', 'cp932_only']
+    classes = ['digits', 'alnum', 'ascii', 'latin1', 'kana', 'sjis_bytes', 'hanzi', 'bytes', 'int', 'utf8', 'upper', 'latin1_jis', 'cp932_only', 'nfd']
     for _ in range(1500 if tier == 'quick' else 20000):
         cls = rng.choice(classes)
         content = gen.content_of(rng, cls, rng.choice([rng.randint(1, 14), rng.randint(1, 14), rng.randint(15, 120)]))
@@ -63,6 +63,8 @@ def gen_cases(tier, seed):
         r = rng.random()
         if r < 0.75:
             kw['mode'] = rng.choice(oracle.MODES + ['Kanji', 'ALPHANUMERIC'])
+        if rng.random() < 0.15 and not isinstance(content, (bytes, int)):
+            kw['encoding'] = rng.choice(['utf-8', 'shift_jis', 'gb2312', 'utf-16-be', 'big5', 'latin1'])
         r = rng.random()
         if r < 0.35:
             kw['version'] = rng.choice(oracle.MICRO + [1, 5, 10, 27])
@@ -78,6 +80,20 @@ def gen_cases(tier, seed):
             if rng.random() < 0.3:
                 kw['mode'] = rng.choice(['kanji', 'byte', 'alphanumeric', 'numeric', 'hanzi'])
             cases.append(common.mk(data, tag='n-byte', **kw))
+    # a requested double-byte mode fixes the byte representation (hanzi: GB2312, kanji: Shift JIS bytes of the text) whatever
+    # `encoding` says about byte mode
+    for text in ('汉字', '中文北京', '汉', '上海广州深圳'):
+        for enc in (None, 'utf-8', 'gb2312', 'gbk', 'utf-16-be', 'big5', 'latin1', 'shift_jis'):
+            kw = {'mode': rng.choice(['hanzi', 'HANZI', 'Hanzi'])}
+            if enc:
+                kw['encoding'] = enc
+            cases.append(common.mk(text, tag='hanzi-encoding', **kw))
+    for text in ('点茗', '漢字', 'アイウ'):
+        for enc in (None, 'shift_jis', 'utf-8', 'cp932'):
+            kw = {'mode': 'kanji'}
+            if enc:
+                kw['encoding'] = enc
+            cases.append(common.mk(text, tag='kanji-encoding', **kw))
     # strings that are almost alphanumeric / numeric
     for ch in [',', ';', 'a', '_', '#', '\n', '\x00', '!', '"', "'", '(', '=', '@', '[', '~', 'é', '０', '٣', '²']:
         for base in ('A%sB', '1%s5', '%s', 'HELLO%sWORLD', '12%s'):
